@@ -104,6 +104,13 @@ func coincide(t *rapid.T, m *MsgSpec, o MsgOpts) {
 			i := rapid.IntRange(0, len(m.Sigs)-1).Draw(t, "twin-src")
 			j := rapid.IntRange(0, len(m.Sigs)-1).Draw(t, "twin-dst")
 			if i != j {
+				if rapid.Bool().Draw(t, "twin-eddsa") && o.FixedAlg == nil {
+					// a deterministic algorithm: the two entries come out byte for byte identical
+					m.Sigs[i].Key, m.Sigs[i].ViaKey = KeyMat(t, refcose.AlgEdDSA), false
+					setAlg(&m.Sigs[i].Prot, refcose.AlgEdDSA)
+					m.Sigs[i].Groups = nil
+					stats.Class("coincidence/twin-signers-deterministic")
+				}
 				s := m.Sigs[i]
 				m.Sigs[j] = SigSpec{Key: s.Key, ViaKey: s.ViaKey, Prot: s.Prot.Clone(), Unprot: s.Unprot.Clone(), NoAlg: s.NoAlg, Inject: s.Inject}
 				done("twin-signers")
